@@ -109,8 +109,12 @@ def model_accepts(slot, s):
 
 def model_judged(slot, s):
     version, dt, _c, _f, _cl = SLOTS[slot]
-    if "\t" in s or "\n" in s:
+    if "\t" in s:
         return False
+    if "\n" in s:
+        # a newline inside a line belongs to no field grammar; only at the very end of the text handed to
+        # gfapy.Line it may pass for a line terminator, which is not judged
+        return not _c.format(s).endswith("\n")
     if slot == "custom_record_type":
         # a line starting with '#' is a comment, not a custom record
         return s not in ("P", "C", "L") and not s.startswith("#")
@@ -260,7 +264,7 @@ POOL = {
     "orientation": ["+", "-"],
     "path_name_gfa1": ["p1", "a+b"],
 }
-EXTRA = " _$*+-.,:e0M" + FW + "\x7f\u00e9"
+EXTRA = " _$*+-.,:e0M" + FW + "\x7f\u00e9\n"
 
 
 def enum_pool(shard, nshards):
